@@ -16,12 +16,14 @@ VERIF = os.path.dirname(os.path.dirname(os.path.abspath(__file__)))
 
 
 def extra_check(tier, only=None):
-    lmax = 24 if tier == "quick" else 40
+    lmax = 18 if tier == "quick" else 40
     with tempfile.NamedTemporaryFile(suffix=".json", delete=False) as tf:
         out = tf.name
     cmd = ["python3-vt", os.path.join(VERIF, "asmsym", "kernels.py"), "--set", "teddy", "--lmax", str(lmax), "--json", out]
     if only:
         cmd += ["--only", only]
+    elif tier == "quick":
+        cmd += ["--only", "teddySlimSSSE3_2,teddySlimAVX2_1,fatTeddyAVX2_2"]
     p = subprocess.run(cmd, capture_output=True, text=True)
     vios, kernels = [], []
     tot = {"paths": 0, "queries": 0, "loads": 0, "solver_s": 0.0}
